@@ -118,7 +118,12 @@ fn judge(kv: &Kv, geom: (usize, usize), tag: &str, ev: &mut Ev) -> Option<(usize
         ev.violate("more-nodes-than-trie", format!("{}: {} nodes emitted but the keys' prefix trie has only {}", tag, nodes, trie), descr());
     }
     let cache_present = geom.0 * geom.1 > 0;
-    if st.evictions == 0 && cache_present {
+    // the premise "no eviction" is OBSERVED through hook H2; if the counters stayed silent although nodes were emitted
+    // (a tree whose cache no longer feeds them), the premise is unobservable and minimality is not judged
+    let hook_alive = st.lookups + st.hits + st.misses > 0 || d.nodes.is_empty();
+    if cache_present && !hook_alive {
+        ev.count("builds:premise-unobservable(hook counters silent)");
+    } else if st.evictions == 0 && cache_present {
         ev.count("builds:premise-no-eviction-observed");
         if nodes != classes {
             ev.violate("duplicate-nodes", format!("{}: no eviction happened, yet {} emitted nodes fall into only {} equivalence classes (equivalent nodes were emitted twice)", tag, nodes, classes), descr());
